@@ -1,4 +1,4 @@
 """`os` as seen by the loaded Darr source."""
-from .symfs import (truncate, unlink, remove, rmdir, mkdir, rename, replace, fsync, stat,
+from .symfs import (truncate, unlink, remove, rmdir, mkdir, rename, replace, fsync, fstat, stat,
                     listdir, fspath, getcwd, path, sep, linesep, name, PathLike)
 import errno  # noqa
